@@ -1,6 +1,8 @@
-\* C12, exhaustive, REPAIRED design (LockWrites, StopKA): all invariants + liveness.
+\* C12, exhaustive, REPAIRED design (LockWrites, StopKA, CloseAtomic; multipart with the proposed repair
+\* MmEncodeInAdd - the code as it is fails NoCrash, see MC_Stream_mmfail.cfg): all invariants + liveness,
+\* a payload that cannot be serialized at every position (FailSet; the driver leaves it alone: FailOK bounds it by n).
 \* quick: payload counts 0..3, two ticks; the driver rewrites the two constants for the thorough tier (0..4, four ticks).
-\* measured: quick 23,483 distinct / 45,764 generated states, depth 44, ~9 s; thorough 198,988 / 402,182, depth 60, ~25-50 s (4 workers);
+\* measured (round 3, with FailSet): quick 46,786 distinct / 90,880 generated states, depth 44, ~6 s; thorough: see notes/C12.md (4 workers);
 \* every action has a non-zero coverage count (notes/C12.md)
 SPECIFICATION Spec
 CONSTANTS
